@@ -276,6 +276,12 @@ DropBlob(t) ==
   /\ blobs' = blobs \ {ws[t]} /\ last' = [kind |-> "dropblob", t |-> t]
   /\ UNCHANGED <<src, files, alias, platform, ws, ext, results, taint>>
 
+\* every stored target result becomes unreadable (the files are still there but do not decode): as good as gone
+CorruptResults ==
+  /\ "CorruptResults" \in Acts /\ Step /\ results # <<>>
+  /\ results' = <<>> /\ last' = [kind |-> "corruptresults"]
+  /\ UNCHANGED <<src, files, alias, platform, ws, ext, blobs, taint>>
+
 Build(s, cacheOn, mode) ==
   /\ "Build" \in Acts /\ Step /\ s \in SelMenu /\ mode \in Modes
   /\ ~cacheOn => "BuildCacheOff" \in Acts
@@ -296,7 +302,7 @@ Next ==
        \/ EditShift(t) \/ EditSwap(t) \/ EditFingerprint(t) \/ EditOutputs(t) \/ ToggleNoCache(t) \/ Taint(t) \/ BreakExt(t) \/ DropBlob(t)
        \/ \E how \in {"delete", "modify", "parent", "stale", "notdir"} : Perturb(t, how)
   \/ \E x \in Aliases, t \in Targets : Retarget(x, t)
-  \/ ChangePlatform \/ Relocate \/ TaintAll
+  \/ ChangePlatform \/ Relocate \/ TaintAll \/ CorruptResults
   \/ \E s \in SelMenu, on \in BOOLEAN, m \in Modes : Build(s, on, m)
 
 Spec == Init /\ [][Next]_vars
